@@ -114,12 +114,32 @@ def _b(x):
     return z3.BoolVal(bool(x))
 
 
+class _NonFinite(Exception):
+    pass
+
+
+def _nanguard(f):
+    """arithmetic with a non-finite float operand yields NaN, as in Python"""
+    import functools
+
+    @functools.wraps(f)
+    def g(self, o):
+        try:
+            return f(self, o)
+        except _NonFinite:
+            return float("nan")
+
+    return g
+
+
 def _e(x):
     if isinstance(x, (SInt, SReal)):
         return x.e
     if isinstance(x, bool):
         return int(x)
     if isinstance(x, float):
+        if x != x or x in (float("inf"), float("-inf")):
+            raise _NonFinite()
         fr = Fraction(x)
         return z3.RatVal(fr.numerator, fr.denominator)
     return x
@@ -166,6 +186,7 @@ class SInt:
     def __bool__(self):
         return bool(SBool(self.e != 0))
 
+    @_nanguard
     def __add__(self, o):
         if isinstance(o, float):
             return SReal(z3.ToReal(self.e) + _e(o))
@@ -175,16 +196,19 @@ class SInt:
 
     __radd__ = __add__
 
+    @_nanguard
     def __sub__(self, o):
         if isinstance(o, (float, SReal)):
             return SReal(z3.ToReal(self.e) - _e(o))
         return SInt(self.e - _e(o))
 
+    @_nanguard
     def __rsub__(self, o):
         if isinstance(o, (float, SReal)):
             return SReal(_e(o) - z3.ToReal(self.e))
         return SInt(_e(o) - self.e)
 
+    @_nanguard
     def __mul__(self, o):
         if isinstance(o, (float, SReal)):
             return SReal(z3.ToReal(self.e) * _e(o))
@@ -204,10 +228,17 @@ class SInt:
     def __rmod__(self, o):
         return SInt(_fmod(z3.IntVal(o) if isinstance(o, int) else _e(o), self.e))
 
+    @_nanguard
     def __truediv__(self, o):
+        if isinstance(o, (int, SInt)):
+            # int / int produces a Python float that immediately reaches C code (np.ceil, float()): concretise both
+            return self._c() / int(o)
         return SReal(z3.ToReal(self.e) / _r(o))
 
+    @_nanguard
     def __rtruediv__(self, o):
+        if isinstance(o, (int, SInt)):
+            return int(o) / self._c()
         return SReal(_r(o) / z3.ToReal(self.e))
 
     def __neg__(self):
@@ -271,6 +302,8 @@ def _r(x):
     if isinstance(x, int):
         return z3.RealVal(x)
     if isinstance(x, float):
+        if x != x or x in (float("inf"), float("-inf")):
+            raise _NonFinite()
         fr = Fraction(x)
         return z3.RatVal(fr.numerator, fr.denominator)
     return x
@@ -296,22 +329,27 @@ class SReal:
     def __format__(self, spec):
         return "<sreal>"
 
+    @_nanguard
     def __add__(self, o):
         return SReal(self.e + _r(o))
 
     __radd__ = __add__
 
+    @_nanguard
     def __sub__(self, o):
         return SReal(self.e - _r(o))
 
+    @_nanguard
     def __rsub__(self, o):
         return SReal(_r(o) - self.e)
 
+    @_nanguard
     def __mul__(self, o):
         return SReal(self.e * _r(o))
 
     __rmul__ = __mul__
 
+    @_nanguard
     def __truediv__(self, o):
         d = _r(o)
         nz = SBool(d != 0)
@@ -319,6 +357,7 @@ class SReal:
             raise ZeroDivisionError("float division by zero")
         return SReal(self.e / d)
 
+    @_nanguard
     def __rtruediv__(self, o):
         nz = SBool(self.e != 0)
         if not bool(nz):
